@@ -553,8 +553,45 @@ def kind_of(e, env):
     return 'UNKNOWN'
 
 
+def _size_behavior_default(rep, src, m):
+    """the attribute read by the size_field_behavior property has a class-level default (under the same mangled name), and that
+    default is the documented 'apt-ftparchive'"""
+    from ..core import mangle
+    cdef = m.classes['Release']
+    getter = None
+    for st in cdef.body:
+        if isinstance(st, ast.Assign) and norm(st.targets[0]) == 'size_field_behavior' and isinstance(st.value, ast.Call) and norm(st.value.func) == 'property' and st.value.args:
+            g = st.value.args[0]
+            if isinstance(g, ast.Lambda):
+                getter = g.body
+            elif isinstance(g, ast.Name) and m.method('Release', g.id) is not None:
+                rets = [r for r in ast.walk(m.method('Release', g.id).node) if isinstance(r, ast.Return)]
+                getter = rets[0].value if len(rets) == 1 else None
+        if isinstance(st, ast.FunctionDef) and st.name == 'size_field_behavior' and any(norm(d) == 'property' for d in st.decorator_list):
+            rets = [r for r in ast.walk(st) if isinstance(r, ast.Return)]
+            getter = rets[0].value if len(rets) == 1 else None
+    site = MOD + ':Release.size_field_behavior'
+    if not (isinstance(getter, ast.Attribute) and norm(getter.value) == 'self'):
+        raise AnalysisError('%s: the property getter is not `self.<attribute>`' % site)
+    want = mangle('Release', getter.attr)
+    defaults = {}
+    for c in m.mro('Release'):
+        for nm, v in m.consts.get(c, {}).items():
+            defaults.setdefault(mangle(c, nm), v)
+    inits = [n_ for c in m.mro('Release') for f_ in [m.funcs.get(c + '.__init__')] if f_ is not None for n_ in ast.walk(f_.node)
+             if isinstance(n_, ast.Attribute) and isinstance(n_.ctx, ast.Store) and norm(n_.value) == 'self' and mangle(c, n_.attr) == want]
+    if want in defaults and defaults[want] == 'apt-ftparchive':
+        rep.ok('C12.R4', site, 'default behaviour', "class default %s = 'apt-ftparchive'" % want, nontrivial=False)
+    elif want in defaults or inits:
+        rep.fail('C12.R4', site, 'default behaviour', 'the default size_field_behavior is %r, documented: apt-ftparchive' % (defaults.get(want, 'set in __init__'),))
+    else:
+        rep.fail('C12.R4', site, 'default behaviour', 'the property reads self.%s, which has no class-level default and is not set by the constructor: in the default '
+                 'configuration the getter raises AttributeError (swallowed by get_as_string), so the sizes are written unpadded' % want)
+
+
 def r4_size_column(rep, src):
     m = src.mod(MOD)
+    _size_behavior_default(rep, src, m)
     for cname, modes in (('PdiffIndex', None), ('Release', ('apt-ftparchive', 'dak'))):
         f = m.method(cname, '_get_size_field_length')
         if f is None:
